@@ -134,6 +134,15 @@ def config_text(case):
             L += cvc_conf(c)
         L.append("}")
     for j, b in enumerate(case["biases"]):
+        if b["type"] == "meta":
+            L += ["metadynamics {", "  name b%d" % j, "  colvars " + " ".join("v%d" % t[0] for t in b["terms"]),
+                  "  hillWeight %r" % b["W"], "  gaussianSigmas " + " ".join("%r" % t[1] for t in b["terms"]),
+                  "  newHillFrequency 1000", "  useGrids off", "}"]
+            continue
+        if b["type"] == "abmd":
+            L += ["abmd {", "  name b%d" % j, "  colvars v%d" % b["terms"][0][0], "  forceConstant %r" % b["k"],
+                  "  stoppingValue %r" % b["stop"], "  decreasing %s" % ("on" if b["dec"] else "off"), "}"]
+            continue
         kw = {"harmonic": "harmonic", "walls": "harmonicWalls", "linear": "linear"}[b["type"]]
         L += [kw + " {", "  name b%d" % j, "  colvars " + " ".join("v%d" % t[0] for t in b["terms"])]
         if b["type"] in ("harmonic", "linear"):
@@ -175,7 +184,7 @@ def scenario(case, tag, with_fd=True):
     if case.get("setstep") is not None:
         L.append("setstep %d" % case["setstep"])
     for pre in case.get("presteps", []):      # history biases: steps at other positions first
-        L.append("show cv 0 bias 0 atomf 0")
+        L.append("show cv 1 bias 0 atomf 0")
         for i, p in pre:
             L.append("pos %d %s %s %s" % (i + 1, hx(p[0]), hx(p[1]), hx(p[2])))
         L.append("step")
@@ -190,6 +199,8 @@ def scenario(case, tag, with_fd=True):
                 L.append("pos %d %s %s %s" % (a + 1, hx(q[0]), hx(q[1]), hx(q[2])))
                 L.append("step")
             L.append("pos %d %s %s %s" % (a + 1, hx(p[0]), hx(p[1]), hx(p[2])))
+        if case.get("presteps"):
+            L.append("step")      # history biases: the base configuration once more, to detect a change of the bias state
     L.append("echo END %s" % tag)
     return L
 
@@ -211,7 +222,20 @@ def group_tokens(g):
     return t
 
 
-def model_line(case):
+def abmd_ref(b, pre_values):
+    """colvarbias_abmd::update replayed on the pre-step values of its variable: the reference before the base step"""
+    ref = None
+    sign = -1.0 if b["dec"] else 1.0
+    for x in pre_values:
+        if ref is None:
+            ref = x
+        diff = (x - ref) * sign
+        if diff > 0.0 and (ref - b["stop"]) * sign <= 0.0:
+            ref = x
+    return ref
+
+
+def model_line(case, res=None):
     at = case["atoms"]
     t = [str(len(at))]
     for (m, q, p) in at:
@@ -227,11 +251,16 @@ def model_line(case):
         if v.get("vec"):
             c = v["cvcs"][0]
             idx = []
-            for ax in ((1.0, 0.0, 0.0), (0.0, 1.0, 0.0), (0.0, 0.0, 1.0)):
+            for kk, ax in enumerate(((1.0, 0.0, 0.0), (0.0, 1.0, 0.0), (0.0, 0.0, 1.0))):
                 c2 = {"kind": "distanceZ", "coeff": c.get("coeff", 1.0), "exp": 1, "params": {"pbc": c["params"]["pbc"], "axis": ax},
                       "groups": [c["groups"][1], c["groups"][0]]}
                 idx.append(len(mvars))
-                mvars.append({"width": v["width"], "cvcs": [c2]})
+                mv = {"width": v["width"], "cvcs": [c2]}
+                if case.get("cell") and c["params"]["pbc"]:
+                    # distance_vec::dist2 takes the minimum image of (value - centre): each projection is a periodic
+                    # scalar whose period is the cell edge
+                    mv["period"] = case["cell"][kk]
+                mvars.append(mv)
             vmap.append(idx)
         else:
             vmap.append([len(mvars)])
@@ -258,7 +287,25 @@ def model_line(case):
             for g in c["groups"]:
                 t += group_tokens(g)
     t.append(str(len(case["biases"])))
+    pre = []
+    if res is not None:
+        pre = [st["cv"] for st in res["steps"][:len(case.get("presteps", []))]]
     for b in case["biases"]:
+        if b["type"] == "meta":
+            # one hill, deposited at the last pre-step (step 1000): centre = the variable values printed there
+            terms = []
+            for (i, sg) in b["terms"]:
+                c = pre[-1]["v%d" % i]
+                terms += [(j, cj, sg) for j, cj in zip(vmap[i], c)]
+            t += ["meta", "1", hx(b["W"]), str(len(terms))]
+            for (j, cj, sg) in terms:
+                t += [str(j), hx(cj), hx(sg)]
+            continue
+        if b["type"] == "abmd":
+            i = b["terms"][0][0]
+            ref = abmd_ref(b, [p["v%d" % i][0] for p in pre])
+            t += ["abmd", hx(b["k"]), "1" if b["dec"] else "0", str(vmap[i][0]), hx(ref)]
+            continue
         if b["type"] in ("harmonic", "linear"):
             terms = []
             for (i, c) in b["terms"]:
@@ -537,6 +584,8 @@ def var_period(v):
     """colvar::init: the restraint metric of a homogeneous variable is that of its first component"""
     if v.get("vec"):
         return 0.0
+    if v.get("period"):
+        return v["period"]
     homog = all(c.get("exp", 1) == 1 and abs(abs(c.get("coeff", 1.0)) - 1.0) < 1e-10 for c in v["cvcs"])
     # colvar::init_components walks global_cvc_map (a std::map keyed by the configuration keyword), so cvcs[0] is the
     # component with the alphabetically first keyword (config order among components of the same keyword)
@@ -610,7 +659,20 @@ def gen_case(r, kinds, opts):
                 # within 1.5 of the value so that the restraint metric is the plain difference (the model's)
                 c = v["cvcs"][0]
                 d, _ = mic(case, vsub(gcom(case, c["groups"][1]), gcom(case, c["groups"][0])), c["params"]["pbc"])
-                return tuple(round(c.get("coeff", 1.0) * x * 8) / 8.0 + V.dyadic(r, -1.5, 1.5, bits=3) for x in d)
+                wrapping = case.get("cell") and c["params"]["pbc"] and c.get("coeff", 1.0) == 1.0
+                out = []
+                for kk, x in enumerate(d):
+                    for _ in range(20):
+                        # with a cell the restraint takes the minimum image of value - centre (the model: a periodic scalar
+                        # with the cell edge as period); keep away from the half-cell cut; without wrapping stay close
+                        cc = round(c.get("coeff", 1.0) * x * 8) / 8.0 + V.dyadic(r, -7.0 if wrapping else -1.5, 7.0 if wrapping else 1.5, bits=3)
+                        if not wrapping:
+                            break
+                        y = (x - cc) / case["cell"][kk] + 0.5
+                        if min(y - math.floor(y), math.floor(y) + 1 - y) > 0.06:
+                            break
+                    out.append(cc)
+                return tuple(out)
             b = {"type": "harmonic", "k": r.choice([1.0, 2.0, 0.5, 10.0, 3.0]),
                  "terms": [(i, vec_centre(case["vars"][i]) if case["vars"][i].get("vec") else V.dyadic(r, -2, 6, bits=3)) for i in vis]}
         elif bt == "linear":
@@ -628,6 +690,25 @@ def gen_case(r, kinds, opts):
             b = {"type": "walls", "hl": hl, "hu": hu, "lwk": r.choice([1.0, 2.0, 4.0, 0.5]), "uwk": r.choice([1.0, 2.0, 4.0, 8.0]), "terms": terms}
         case["biases"].append(b)
     case["touched"] = touched_atoms(case)
+    if opts.get("hist") and r.random() < opts["hist"]:
+        # a history-dependent bias evaluated at a frozen state: one metadynamics hill / the ABMD reference, produced by
+        # pre-steps at slightly displaced positions
+        kind = r.choice(["meta", "meta", "abmd"])
+        scal = [i for i, v in enumerate(case["vars"]) if not v.get("vec")]
+        if kind == "abmd" and not scal:
+            kind = "meta"
+        disp = lambda: [(a, tuple(x + V.dyadic(r, -0.125, 0.125, bits=5) for x in case["atoms"][a][2])) for a in case["touched"]]
+        if kind == "meta":
+            vis = [r.randrange(nv)] if (nv == 1 or r.random() < 0.5) else list(range(nv))
+            b = {"type": "meta", "W": r.choice([1.0, 2.0, 0.5, 4.0]), "terms": [(i, r.choice([1.0, 4.0, 16.0, 0.5])) for i in vis]}
+            case["setstep"] = 999
+            case["presteps"] = [disp(), disp()]
+        else:
+            i = r.choice(scal)
+            dec = r.random() < 0.5
+            b = {"type": "abmd", "k": r.choice([1.0, 2.0, 0.5, 10.0]), "dec": dec, "stop": -1.0e6 if dec else 1.0e6, "terms": [(i, None)]}
+            case["presteps"] = [disp()]
+        case["biases"][r.randrange(len(case["biases"]))] = b
     return case
 
 
@@ -733,6 +814,13 @@ def fd_check(case, res):
     base = steps[npre]
     coords = fd_coords(case)
     fd_steps = steps[npre + 1:]
+    if case.get("presteps") and len(fd_steps) == 4 * len(coords) + 1:
+        again = fd_steps.pop()
+        e0, e1 = base.get("energy"), again.get("energy")
+        if e0 is None or e1 is None or abs(e0 - e1) > 1e-9 * max(1.0, abs(e0)):
+            # the bias changed its own state during the displaced steps (ABMD ratchet, a new hill): the energies of the
+            # displaced steps are not values of one function
+            return "ambiguous", "the state of a history-dependent bias changed during the finite-difference steps"
     if len(fd_steps) != 4 * len(coords):
         return "ambiguous", "finite-difference steps missing (%d of %d)" % (len(fd_steps), 4 * len(coords))
     forces = base["atomf"]
@@ -767,9 +855,21 @@ def fd_check(case, res):
     return "ok", None
 
 
-def walls_ambiguous(case, base):
-    """a variable within 0.05 of a wall position: the energy has a kink there"""
+def walls_ambiguous(case, base, res=None):
+    """a variable within 0.05 of a wall position (or of the ABMD reference): the energy has a kink there"""
     for b in case.get("biases", []):
+        if b["type"] == "abmd" and res is not None:
+            i = b["terms"][0][0]
+            pre = [st["cv"] for st in res["steps"][:len(case.get("presteps", []))]]
+            x = base["cv"].get("v%d" % i)
+            try:
+                ref = abmd_ref(b, [p["v%d" % i][0] for p in pre])
+            except Exception:
+                return True
+            # beyond the reference the reference follows the variable (at the base step and at every displaced step), so the
+            # displaced energies are not values of one function; only the biased side, away from the reference, is decided
+            if not x or ref is None or (x[0] - ref) * (-1.0 if b["dec"] else 1.0) > -0.01 * max(1.0, abs(ref)):
+                return True
         if b["type"] == "walls":
             for (i, lo, up) in b["terms"]:
                 x = base["cv"].get("v%d" % i)
@@ -1050,7 +1150,7 @@ def check(run):
     model, exes = st
     vsim = exes["vsim"]
 
-    opts = {"dummy": True, "center": True, "poly": True, "cell": True, "nofitgrad": True, "vec": 0.12, "biases": ["harmonic", "harmonic", "walls", "linear"]}
+    opts = {"dummy": True, "center": True, "poly": True, "cell": True, "nofitgrad": True, "vec": 0.12, "hist": 0.2, "biases": ["harmonic", "harmonic", "walls", "linear"]}
     kinds = T1 + T1 + T2
     ncases = 500 if quick else 40000
     cases = load_corpus()
@@ -1074,11 +1174,16 @@ def check(run):
         if any((not g.get("fitgrad", True)) and g.get("center") and not g["center"].get("implicit") for v in c["vars"] for cv in v["cvcs"] for g in cv["groups"]):
             c["nofd"] = True
 
-    mlines = [model_line(c) for c in cases]
+    results = run_vsim(vsim, cases)
+    mlines = []
+    for c, res0 in zip(cases, results):
+        try:
+            mlines.append(model_line(c, res0))
+        except Exception:
+            mlines.append("0 0 0 0")        # the implementation produced no pre-step values: reported by the tie below
     rcm, mouts, em = V.run_lines(model, mlines, timeout=900)
     if len(mouts) != len(mlines):
         raise V.InfraError("C01 model driver died: rc=%d %s" % (rcm, em[-500:]))
-    results = run_vsim(vsim, cases)
 
     n_amb = 0
     n_fd = 0
@@ -1110,7 +1215,7 @@ def check(run):
                 nontriv = any(abs(x) > 1e-9 for f in base["atomf"].values() for x in f)
                 if case.get("nofd"):
                     run.dist("fd:skipped-enableFitGradients-off")
-                elif walls_ambiguous(case, base):
+                elif walls_ambiguous(case, base, res):
                     n_amb += 1
                     run.dist("fd:boundary-ambiguous")
                     nontriv = False
@@ -1190,7 +1295,7 @@ def replay(path):
         print("finite-difference verdict:", fd_check(case, res))
         if "vars" in case:
             model = V.extract_model("C01", EXTRACT, DRIVER, ["ocaml/fops.ml"])
-            print("model:", V.run_lines(model, [model_line(case)])[1])
+            print("model:", V.run_lines(model, [model_line(case, res)])[1])
     elif rp.get("kind") == "scenario":
         rc, out, err = V.run_lines(vsim, rp["scenario"])
         print("\n".join(out[-40:]), err[-500:])
